@@ -210,6 +210,16 @@ func (c *Persistent) setID(id string) (err error) {
 		return errors.Error("clientid is empty")
 	}
 
+	// Try MAC first: an EUI-64 in the colon-separated form, which is the form
+	// that [net.HardwareAddr.String] and thus [Persistent.IDs] produce, is also
+	// a syntactically valid IPv6 address.
+	var mac net.HardwareAddr
+	if mac, err = net.ParseMAC(id); err == nil {
+		c.MACs = append(c.MACs, mac)
+
+		return nil
+	}
+
 	var ip netip.Addr
 	if ip, err = netip.ParseAddr(id); err == nil {
 		c.IPs = append(c.IPs, ip)
@@ -222,13 +232,6 @@ func (c *Persistent) setID(id string) (err error) {
 		// Store the network itself, so that different spellings of the same
 		// subnet, e.g. 192.168.1.1/24 and 192.168.1.0/24, are one identifier.
 		c.Subnets = append(c.Subnets, subnet.Masked())
-
-		return nil
-	}
-
-	var mac net.HardwareAddr
-	if mac, err = net.ParseMAC(id); err == nil {
-		c.MACs = append(c.MACs, mac)
 
 		return nil
 	}
